@@ -52,6 +52,9 @@ type snode struct {
 	anyOf    []*snode
 	oneOf    []*snode
 	extraReq []string // required names of members no schema describes
+	// notClause adds a "not" that every object satisfies (it describes nothing and contributes no default,
+	// but its validator is built and run next to the others)
+	notClause int // 0 absent, 1 {"type":"string"}, 2 {"required":["zzNeverThere"]}
 	// array
 	items         *snode
 	tuple         []*snode
@@ -297,6 +300,9 @@ func (g *cgen) closedNode(n *snode) bool {
 // parts (0: not a part of a composition).
 func (g *cgen) object(depth int, prefix string, member int, used map[string]*snode) *snode {
 	n := &snode{kind: kObject, typed: g.chance("typed", 50)}
+	if g.chance("notclause", 15) {
+		n.notClause = 1 + g.pick("notkind", 2)
+	}
 	if used == nil {
 		used = map[string]*snode{}
 	}
@@ -590,6 +596,12 @@ func (g *cgen) render(n *snode) map[string]any {
 			out["additionalProperties"] = false
 		case 3:
 			out["additionalProperties"] = g.render(n.addlNode)
+		}
+		switch n.notClause {
+		case 1:
+			out["not"] = map[string]any{"type": "string"}
+		case 2:
+			out["not"] = map[string]any{"required": []any{"zzNeverThere"}}
 		}
 		for kw, parts := range map[string][]*snode{"allOf": n.allOf, "anyOf": n.anyOf, "oneOf": n.oneOf} {
 			if parts == nil {
